@@ -156,6 +156,12 @@ def toObs (g : GenObs) : Obs := ⟨!g.isStd, g.name, g.offFrom, g.offTo, g.dtsta
 
 /-! ## applicability check on a table (decided by the driver for every real zone) -/
 
+/-- the rows of a table are strictly ascending -/
+def sortedRows : List Row → Bool
+  | [] => true
+  | [_] => true
+  | a :: b :: r => a.pos < b.pos && sortedRows (b :: r)
+
 def persists (rows : List Row) (o : Int) (upto : Int) : Bool :=
   rows.all fun r => !(r.pos < upto) || r.info.off != o
 
